@@ -429,6 +429,16 @@ def r6_handed_over_as_read(ctx):
                 # a named intermediate (e.g. the result of an inlined helper): every definition is the reader's result
                 dv = [v_ for _, v_ in local_defs(f, val.id) if v_ is not None]
                 ok = bool(dv) and all(isinstance(v_, ast.Call) and call_name(v_) in fns for v_ in dv)
+            # ... read with the reader's value-preserving defaults: no option that rescales, selects or transposes
+            DENY = {"do_not_scale_image_data", "scale_back", "uint", "ignore_blank", "ignore_missing_end", "lower", "upper", "view", "usecols", "skiprows", "max_rows", "converters", "unpack", "dtype", "comments", "encoding", "quotechar", "like"}
+            rcalls = [val] if isinstance(val, ast.Call) else [v_ for _, v_ in local_defs(f, val.id) if isinstance(v_, ast.Call)] if isinstance(val, ast.Name) else []
+            for rc in rcalls:
+                denied = [k.arg for k in rc.keywords if k.arg in DENY and not (isinstance(k.value, ast.Constant) and k.value.value is None)]
+                if ok and denied:
+                    ctx.fail(q + f"#as-read:{br}", f"{br}: {call_name(rc)} is called with {denied[0]}=...: the values / shape handed over are no longer those the file denotes (e.g. FITS BZERO / BSCALE not applied)", where=f, node=rc)
+                    ok = None
+            if ok is None:
+                continue
             ctx.check(ok, q + f"#as-read:{br}", f"{br}: the result of {fns[0]}(...) is returned as read" if ok else (f"{br}: the loaded array is rewritten {len(sts)} times in its branch (`{norm(sts[-1])[:60]}`): shape / values are not those stored in the file" if len(sts) != 1 else f"{br}: the branch stores `{norm(val)[:60]}` instead of the reader's result"), where=f, node=sts[-1] if sts else f.node)
     f = ctx.func(f"{LD}:load_table")
     sn = [c for c in calls_in(f.node) if isinstance(c.func, ast.Attribute) and c.func.attr == "sniff"]
@@ -455,6 +465,17 @@ CACHE_SAMPLES = {
 }
 
 
+def _fsspec_get_protocol(url: str) -> str:
+    """Trusted model of fsspec.utils.get_protocol (documented): the text before '::' or '://', else 'file'."""
+    import re as _re
+
+    parts = _re.split(r"(\:\:|\://)", url, maxsplit=1)
+    return parts[0] if len(parts) > 1 else "file"
+
+
+LIBRARY_MODELS = {"get_protocol": _fsspec_get_protocol, "split_protocol": lambda url: ((_fsspec_get_protocol(url) if ("://" in url or "::" in url) else None), url.split("://", 1)[-1])}
+
+
 def r7_no_cached_copy_of_local_files(ctx):
     """"Reflects the file's content at the time of the run": with the cache option on, prepare_cache_path - evaluated (sa/minieval.py, nothing is run) for a sample of every kind of location - routes only REMOTE locations through fsspec's simplecache (whose copies are keyed by path and never refreshed); local paths are returned unchanged, with or without the option; with the option off nothing is cached at all."""
     from sa.minieval import Opaque, Record, Undecided, evaluate
@@ -466,6 +487,7 @@ def r7_no_cached_copy_of_local_files(ctx):
         for url, remote in CACHE_SAMPLES.items():
             opts = Record(cache_enabled=enabled, cache_folder=None)
             helpers = {nm: fn_.node for nm, fn_ in f.module.functions.items() if isinstance(fn_.node, ast.FunctionDef) and nm != f.name}
+            helpers.update(LIBRARY_MODELS)
             try:
                 kind, val = evaluate(f.node, {p: url}, {**helpers, "global_options": opts})
             except Undecided as exc:
